@@ -791,7 +791,9 @@ Lemma encode_loop_decode (L : nat) : (4 <= L)%nat -> forall fl t last prev,
       = Some (submitted_from prev fl, et_entries t').
 Proof.
   intros HL. induction fl as [|f fl IH]; intros t last prev Ht H4 Hok Hlast Hnamed.
-  - exists t, []. cbn [encode_loop submitted_from]. repeat split; auto. intros fuel _. apply ref_fields_nil.
+  - exists t, []. cbn [encode_loop submitted_from].
+    split; [reflexivity|]. split; [exact Ht|]. split; [reflexivity|].
+    intros fuel _. apply ref_fields_nil.
   - cbn [forallb] in Hok. apply andb_true_iff in Hok. destruct Hok as [Hf Hok].
     unfold field_ok in Hf. apply andb_true_iff in Hf. destruct Hf as [Hfn Hfv].
     cbn [encode_loop submitted_from]. destruct (fi_name f) as [n|] eqn:En.
@@ -837,4 +839,168 @@ Proof.
       destruct (IH t (Some (idx, lh)) Ht) as [(t2 & rest & Hloop & Ht2 & Hm2)|Hfail]; rewrite ?Hloop, ?Hfail.
       * left. eauto 10.
       * right. reflexivity.
+Qed.
+
+(* ====================================================================================== *)
+(* H. update_max_size, one block, a history *)
+
+Definition pend_le (st : enc_state) : Prop :=
+  match e_size_update st with
+  | None => True
+  | Some (One v) => v <= 4096
+  | Some (Two mn v) => mn <= 4096 /\ v <= 4096
+  end.
+
+Definition einv (st : enc_state) : Prop :=
+  tinv (e_table st) /\ et_max (e_table st) <= 4096 /\ e_max_allowed st = 4096 /\ pend_le st.
+
+(* the pending updates against the peer's current limit *)
+Definition pend_ok (st : enc_state) (lim : N) : Prop :=
+  match e_size_update st with
+  | None => et_max (e_table st) <= lim
+  | Some (One v) => v <= lim
+  | Some (Two mn v) => mn <= v /\ v <= lim
+  end.
+
+(* the max_size the table has after the pending updates are emitted *)
+Definition final_target (st : enc_state) : N :=
+  match e_size_update st with
+  | None => et_max (e_table st)
+  | Some (One v) => v
+  | Some (Two _ v) => v
+  end.
+
+Lemma pend_ok_target st lim : pend_ok st lim -> final_target st <= lim.
+Proof. unfold pend_ok, final_target. destruct (e_size_update st) as [[v|mn v]|]; lia. Qed.
+
+Lemma upd_table st u : e_table (enc_update_max_size st u) = e_table st.
+Proof.
+  unfold enc_update_max_size. destruct (e_size_update st) as [[old|mn mx]|].
+  - destruct (old <? N.min u (e_max_allowed st)); [destruct (et_max (e_table st) <? old)|]; reflexivity.
+  - destruct (N.min u (e_max_allowed st) <? mn); reflexivity.
+  - destruct (negb (N.min u (e_max_allowed st) =? et_max (e_table st))); reflexivity.
+Qed.
+
+Lemma upd_allowed st u : e_max_allowed (enc_update_max_size st u) = e_max_allowed st.
+Proof.
+  unfold enc_update_max_size. destruct (e_size_update st) as [[old|mn mx]|].
+  - destruct (old <? N.min u (e_max_allowed st)); [destruct (et_max (e_table st) <? old)|]; reflexivity.
+  - destruct (N.min u (e_max_allowed st) <? mn); reflexivity.
+  - destruct (negb (N.min u (e_max_allowed st) =? et_max (e_table st))); reflexivity.
+Qed.
+
+Lemma upd_inv st lim u :
+  einv st -> pend_ok st lim -> einv (enc_update_max_size st u) /\ pend_ok (enc_update_max_size st u) u.
+Proof.
+  intros ([Ht1 Ht2] & H4 & Ha & Hp) Hl. unfold einv, tinv, pend_ok, pend_le in *.
+  rewrite upd_table, upd_allowed.
+  unfold enc_update_max_size. rewrite Ha.
+  destruct (e_size_update st) as [[old|mn mx]|].
+  - destruct (old <? N.min u 4096) eqn:E1; [destruct (et_max (e_table st) <? old) eqn:E2|];
+      cbn [e_size_update]; rewrite ?N.ltb_lt, ?N.ltb_ge in *; repeat split; try assumption; lia.
+  - destruct (N.min u 4096 <? mn) eqn:E1; cbn [e_size_update];
+      rewrite ?N.ltb_lt, ?N.ltb_ge in *; repeat split; try assumption; lia.
+  - destruct (N.min u 4096 =? et_max (e_table st)) eqn:E1; cbn [negb e_size_update].
+    + apply N.eqb_eq in E1. destruct (e_size_update st) as [[old|mn mx]|] eqn:E0;
+        repeat split; try assumption; lia.
+    + repeat split; try assumption; lia.
+Qed.
+
+Lemma last_cons {A} (x : A) l d : last (x :: l) d = last l x.
+Proof. revert x d. induction l as [|y l IH]; intros x d; [reflexivity|]. cbn [last] in *. destruct l; [reflexivity|]. apply (IH y). Qed.
+
+Lemma last_app {A} (a b : list A) d : last (a ++ b) d = last b (last a d).
+Proof.
+  revert d. induction a as [|x a IH]; intros d; [reflexivity|].
+  change ((x :: a) ++ b) with (x :: (a ++ b)). rewrite !last_cons. apply IH.
+Qed.
+
+Lemma fold_upd_inv : forall ups st lim,
+  einv st -> pend_ok st lim ->
+  einv (fold_left enc_update_max_size ups st) /\
+  pend_ok (fold_left enc_update_max_size ups st) (last ups lim) /\
+  e_table (fold_left enc_update_max_size ups st) = e_table st.
+Proof.
+  induction ups as [|u ups IH]; intros st lim Hi Hp; cbn [fold_left]; [auto|].
+  destruct (upd_inv st lim u Hi Hp) as [Hi' Hp'].
+  destruct (IH _ _ Hi' Hp') as (H1 & H2 & H3).
+  rewrite last_cons. rewrite H3, upd_table. auto.
+Qed.
+
+Lemma last_limit_spec rs ups :
+  last_limit rs ups = mk_rstate (r_dyn rs) (r_max rs) (last ups (r_limit rs)).
+Proof.
+  unfold last_limit. destruct ups as [|x xs _] using rev_ind.
+  - destruct rs; reflexivity.
+  - rewrite rev_app_distr. cbn [rev app]. rewrite last_app. reflexivity.
+Qed.
+
+Lemma enc_size_update_len v : (1 <= List.length (enc_size_update v))%nat.
+Proof.
+  unfold enc_size_update. change 32 with (1 * 2 ^ 5).
+  destruct (enc_int_head v 5 1) as (x & tl & -> & _). cbn [List.length]. lia.
+Qed.
+
+Lemma ref_fields_not_update (L L' : nat) max fuel dyn limit out r :
+  ref_fields hd L max (S fuel) dyn out = Some r -> ref_update_step L' limit out = None.
+Proof.
+  destruct out as [|b out]; [reflexivity|]. cbn [ref_fields].
+  destruct (ref_field_step hd L max dyn (b :: out)) as [[[f d] rest]|] eqn:E; [|discriminate].
+  intros _. eapply field_not_update. exact E.
+Qed.
+
+Lemma ref_block_fields (L : nat) lim fuel dyn max out fs dyn' :
+  (forall fuel', (List.length out <= fuel')%nat -> ref_fields hd L max fuel' dyn out = Some (fs, dyn')) ->
+  (List.length out < fuel)%nat ->
+  ref_block hd L lim fuel dyn max out = Some (fs, dyn', max).
+Proof.
+  intros H Hf. destruct fuel as [|fuel]; [lia|]. cbn [ref_block].
+  pose proof (H (S fuel) ltac:(lia)) as H1.
+  rewrite (ref_fields_not_update L L max fuel dyn lim out _ H1). rewrite H1. reflexivity.
+Qed.
+
+Lemma ref_block_update (L : nat) lim fuel dyn max v rest :
+  (4 <= L)%nat -> v <= lim -> v <= 4096 ->
+  ref_block hd L lim (S fuel) dyn max (enc_size_update v ++ rest)
+  = ref_block hd L lim fuel (evict_to v dyn) v rest.
+Proof.
+  intros HL Hv H4. cbn [ref_block].
+  rewrite rep_size_update; [reflexivity|assumption|assumption|change (2 ^ 28) with 268435456; lia].
+Qed.
+
+Lemma ref_update_step_update (L : nat) lim v rest :
+  (4 <= L)%nat -> v <= lim -> v <= 4096 ->
+  ref_update_step L lim (enc_size_update v ++ rest) = Some (v, rest).
+Proof.
+  intros. apply rep_size_update; [assumption|assumption|change (2 ^ 28) with 268435456; lia].
+Qed.
+
+(* encoder and reference decoder between two blocks *)
+Definition sync (st : enc_state) (rs : rstate) : Prop :=
+  einv st /\ e_size_update st = None /\ r_dyn rs = et_entries (e_table st) /\
+  r_max rs = et_max (e_table st) /\ et_max (e_table st) <= r_limit rs.
+
+(* wf-free: what `encode` does to the invariant *)
+Lemma enc_encode_inv st fl : einv st ->
+  (exists st2 out, enc_encode st fl = EOk (st2, out) /\ einv st2 /\ e_size_update st2 = None /\
+                   et_max (e_table st2) = final_target st) \/
+  enc_encode st fl = EFail NoPreviousName.
+Proof.
+  intros (Ht & H4 & Ha & Hp). unfold enc_encode, encode_size_updates, final_target, pend_le in *.
+  destruct (e_size_update st) as [[v|mn v]|].
+  - rewrite (table_resize_spec _ v Ht). cbn [e_table e_max_allowed].
+    destruct (encode_loop_inv fl (rsz (e_table st) v) None (tinv_rsz _ _)) as [(t2 & o & Hl & Ht2 & Hm2)|Hf];
+      rewrite ?Hl, ?Hf; [left|right; reflexivity].
+    eexists _, _. split; [reflexivity|]. unfold einv, pend_le. cbn [e_table e_max_allowed e_size_update rsz et_max] in *.
+    repeat split; auto; lia.
+  - destruct Hp as [Hp1 Hp2]. rewrite (table_resize_spec _ mn Ht).
+    rewrite (table_resize_spec _ v (tinv_rsz _ _)). cbn [e_table e_max_allowed].
+    destruct (encode_loop_inv fl (rsz (rsz (e_table st) mn) v) None (tinv_rsz _ _)) as [(t2 & o & Hl & Ht2 & Hm2)|Hf];
+      rewrite ?Hl, ?Hf; [left|right; reflexivity].
+    eexists _, _. split; [reflexivity|]. unfold einv, pend_le. cbn [e_table e_max_allowed e_size_update rsz et_max] in *.
+    repeat split; auto; lia.
+  - destruct (encode_loop_inv fl (e_table st) None Ht) as [(t2 & o & Hl & Ht2 & Hm2)|Hf];
+      rewrite ?Hl, ?Hf; [left|right; reflexivity].
+    eexists _, _. split; [reflexivity|]. unfold einv, pend_le. cbn [e_table e_max_allowed e_size_update].
+    repeat split; auto; lia.
 Qed.
